@@ -468,6 +468,11 @@ class LoopMixin:
         return out[:6]
 
     def _loop_head(self, st, body, extra_targets=()):
+        if self.nofork:
+            # a loop inside an expression that is evaluated generically (the element of a comprehension ...): its exits
+            # cannot be explored there, so nothing that follows may count as decided
+            self.note_unknown(st, 'loop executed inside a generically evaluated comprehension element')
+            raise Abandon('loop inside a generically evaluated comprehension')
         keys, mutated = self._loop_keys(st, body, extra_targets)
         self._cur_mods = set(keys)
         pre = {k: self._read_key(k) for k in keys}
@@ -593,6 +598,8 @@ class LoopMixin:
         itv = self.resolve(itv)
         if getattr(itv, 'shared_iterator', False):
             self.event('mutate-shared', node, target=itv, how='a module-level iterator is advanced')
+        if getattr(itv, 'lazy_unforced', False):
+            self.note_unknown(node, 'generator expression over a generator call consumed outside a for statement of the function that made it')
         if isinstance(itv, GenCallV):
             # a generator consumed by something other than a for statement (join, sum, zip...): drained into a list first
             itv = self.drain_generator(itv, node)
@@ -607,7 +614,8 @@ class LoopMixin:
         if isinstance(itv, RangeV):
             lo, hi = Lin.of(itv.lo), Lin.of(itv.hi)
             s = self.fresh('i')
-            self.store.declare(s, None, None)
+            clo, chi = self.store.canon(lo), self.store.canon(hi)
+            self.store.declare(s, clo.c if clo.is_const() else None, chi.c - 1 if chi.is_const() else None)
             self.store.assume_ge0(Lin.sym(s) - lo)
             self.store.assume_ge0(hi - 1 - Lin.sym(s))
             return IntV(Lin.sym(s)), hi - lo
@@ -757,6 +765,13 @@ class LoopMixin:
             itv = ListV(items=list(self.enum_members(itv.ci)))      # iterating an Enum class: its members in order
         if isinstance(itv, GenCallV):
             return self._for_generator(st, itv)
+        lazy = getattr(itv, 'lazy_genexp', None)
+        if lazy is not None and not lazy[2].started and lazy[1] is self.frames[-1] and not st.orelse:
+            # for x in (elt for t in <generator call> if cond): the generator expression was created in this frame and not
+            # touched since; the loop is that of   for t in <generator call>: if not cond: continue; x = elt; <body>
+            synth = self._genexp_loop(st, lazy[0])
+            if synth is not None:
+                return self._for_generator(synth, lazy[2])
         # exact iteration over small concrete collections
         items = None
         if isinstance(itv, (ListV, TupleV)) and itv.items is not None and len(itv.items) <= 4:
@@ -808,6 +823,37 @@ class LoopMixin:
         else:
             self.event('loop-exit', st, how='exhausted')
             self.exec_block(st.orelse)
+
+    def _genexp_loop(self, st, gnode):
+        cache = self.an.__dict__.setdefault('_genexp_loops', {})
+        key = (id(st), id(gnode))
+        if key in cache:
+            return cache[key]
+        synth = None
+        if len(gnode.generators) == 1 and not gnode.generators[0].is_async:
+            gen = gnode.generators[0]
+            body = [ast.If(test=ast.UnaryOp(op=ast.Not(), operand=c), body=[ast.Continue()], orelse=[]) for c in gen.ifs]
+            body.append(ast.Assign(targets=[st.target], value=gnode.elt, lineno=st.lineno))
+            synth = ast.For(target=gen.target, iter=gen.iter, body=body + list(st.body), orelse=[], lineno=st.lineno)
+            ast.copy_location(synth, st)
+            for n in body:
+                ast.copy_location(n, st)
+                for sub in ast.walk(n):
+                    if not hasattr(sub, 'lineno'):
+                        ast.copy_location(sub, st)
+                    for ch in ast.iter_child_nodes(sub):
+                        if not hasattr(ch, '_parent') or ch in (st.target, gnode.elt) or ch in gen.ifs:
+                            pass
+                n._parent = synth
+            for n in body:
+                for sub in ast.walk(n):
+                    for ch in ast.iter_child_nodes(sub):
+                        if getattr(ch, '_parent', None) is None:
+                            ch._parent = sub
+            synth._parent = getattr(st, '_parent', None)
+            synth._desugared_from = st
+        cache[key] = synth
+        return synth
 
     def _for_unroll(self, st, itv):
         prev = None
